@@ -706,8 +706,15 @@ func c07Payload(c *Ctx) {
 				continue
 			}
 			if a.Key != key {
-				okL, why = false, "the table is keyed by "+a.Key+", not by "+key
-			} else if !a.Found {
+				// not the rendering "hash of the signature algorithm of my key spec parameter": decide on the values where the
+				// key comes from — the three steps (obtain the key spec, hash of its signature algorithm, apply the table) may be
+				// cut into helpers at either boundary, see c07KeyOfKeySpec
+				if okK, whyK := c07KeyOfKeySpec(w, fn, a); !okK {
+					okL, why = false, "the table is keyed by "+a.Key+", not by "+key+" ("+whyK+")"
+					continue
+				}
+			}
+			if !a.Found {
 				okL, why = false, "the algorithm "+desc(a.App.Val)+" reaches the invocation without the test that the key was found ("+strings.Join(a.App.foundLabels(), " / ")+")"
 			}
 		}
@@ -716,7 +723,8 @@ func c07Payload(c *Ctx) {
 			siteL = w.InstrPos(apps[0].App.At)
 		}
 		c.Check(okL, "payload/blob-digest-algorithm/lookup", "must-check: the descriptor generator is invoked only with table[keySpec.SignatureAlgorithm().Hash()] of the key spec "+fnName(fn)+" was given, found in the table (a miss fails closed)", siteL, why)
-		c.requireOnExits("payload/blob-digest-algorithm", fn, s.Exits, []Need{
+		// (exits that return, over the failing branch of its own nil test, the error just tested are not success exits: c07LiveExits)
+		c.requireOnExits("payload/blob-digest-algorithm", fn, c07LiveExits(s.Exits), []Need{
 			{Name: "generator", What: "descriptor generator applied to that digest algorithm", Subs: []string{"EQ(" + desc(gc.Call) + "#err,nil)"}},
 		})
 	}
